@@ -140,3 +140,38 @@ package trafficshape
 //@   ensures[accepted-throttles-do-not-overlap-and-only-the-last-is-open-ended] result1 == nil ==>
 //@        (forall k int :: 0 <= k && k < len(throttles) - 1 ==> throttles[k].ByteEnd != -1 && throttles[k].ByteEnd <= throttles[k+1].ByteStart)
 //@   loop 0 invariant forall k int :: 0 <= k && k <= rangeindex && k < len(throttles) - 1 ==> throttles[k].ByteEnd != -1 && throttles[k].ByteEnd <= throttles[k+1].ByteStart
+
+// ---------------------------------------------------------------------------------------------
+// C18: the configuration endpoint validates first and installs afterwards, under the shape map's write lock; a request
+// that is answered with an error has installed nothing. nInstall counts installation steps (bucket capacities,
+// latency, defaults).
+//@ ghost var nInstall int
+//@ extern func http.Error
+//@   modifies nErrReply
+//@   ensures nErrReply == old(nErrReply) + 1
+//@ extern func (*json.Decoder).Decode
+//@   modifies ConfigRequest.*, Trafficshape.*, Default.*
+//@ extern func json.NewDecoder
+//@   ensures result != nil
+//@ func parseShapes
+//@   trusted
+//@ func (*Listener).SetLatency
+//@   trusted
+//@ func (*Listener).SetDefaults
+//@   trusted
+//@ func (*Handler).ServeHTTP
+//@   serves C18
+//@   requires h != nil && h.l != nil && h.l.Shapes != nil && !h.l.Shapes.wheld && h.l.Shapes.rheld == 0 && h.l.ReadBucket != nil && h.l.WriteBucket != nil && req != nil && req.Body != nil && rw != nil
+//@   modifies nInstall, nErrReply, h.l.Shapes.M, h.l.Shapes.LastModifiedTime, h.l.Shapes.wheld, http.Request.Body
+//@   noframe
+//@   at call 0 of parseShapes before assert[nothing-is-installed-before-the-configuration-is-validated] nInstall == old(nInstall) && h.l.Shapes.M == old(h.l.Shapes.M)
+//@   at call all of SetCapacity before set nInstall = nInstall + 1
+//@   at call 0 of SetLatency before set nInstall = nInstall + 1
+//@   at call 0 of SetDefaults before set nInstall = nInstall + 1
+//@   at call all of SetCapacity before assert[installation-happens-under-the-shape-lock] h.l.Shapes.wheld
+//@   at call 0 of SetLatency before assert[installation-happens-under-the-shape-lock] h.l.Shapes.wheld
+//@   at call 0 of SetDefaults before assert[installation-happens-under-the-shape-lock] h.l.Shapes.wheld
+//@   ensures[a-rejected-configuration-leaves-the-active-shaping-unchanged] nErrReply > old(nErrReply) ==> nInstall == old(nInstall) && h.l.Shapes.M == old(h.l.Shapes.M)
+//@   ensures[lock-released] !h.l.Shapes.wheld
+//@   ensures[no-read-lock-left] h.l.Shapes.rheld == 0
+//@   loop 0 invariant h.l.Shapes.wheld && h.l.Shapes.rheld == 0 && nErrReply == old(nErrReply) && h.l.Shapes == old(h.l.Shapes) && h.l == old(h.l)
